@@ -125,7 +125,8 @@ def judge_case(case):
             n_ns = sum(1 for w in rec if issubclass(w.category, MosMergeNonStrictWarning))
             if strict:
                 first_fail = _first_failure(case)
-                if first_fail == 'after' and not isinstance(ex, MosCompletedMergeError) and case['after_collection']:
+                n_after = len([t for t in case['prefix'] + case['after_collection'] if _mid(t) > _mid(case['delete'])])
+                if first_fail == 'after' and not isinstance(ex, MosCompletedMergeError) and n_after:
                     fail('collection-strict|no-MosCompletedMergeError',
                          f'strict merge gave {type(ex).__name__ if ex else "no exception"}')
             else:
@@ -133,25 +134,33 @@ def judge_case(case):
                     fail('collection-non-strict|raised', f'non-strict merge raised {type(ex).__name__}')
                 elif not mc.completed:
                     fail('collection-non-strict|not-completed', 'collection not completed')
-                elif n_ns < len(case['after_collection']):
+                elif n_ns < len([t for t in case['prefix'] + case['after_collection'] if _mid(t) > _mid(case['delete'])]):
                     fail('collection-non-strict|missing-warnings',
-                         f'{n_ns} non-strict warnings for {len(case["after_collection"])} messages after the roDelete')
+                         f'{n_ns} non-strict warnings, fewer than the messages that sort after the roDelete')
                 elif canon(ET.fromstring(str(mc)).find('roCreate')) != canon(ET.fromstring(str(_fold_prefix(case))).find('roCreate')):
                     fail('collection-non-strict|content-changed-after-completion',
                          'messages after the roDelete changed the running order in non-strict mode')
     return fails, effective
 
 
+def _mid(text):
+    return int(ET.fromstring(text).findtext('messageID').strip())
+
+
 def _fold_prefix(case):
+    """The running order at the moment the collection merges the roDelete: every other
+    message with a lower message ID, in ascending ID order."""
     ro = RunningOrder.from_string(case['ro_xml'])
-    for t in case['prefix']:
+    cut = _mid(case['delete'])
+    for t in sorted((t for t in case['prefix'] + case['after_collection'] if _mid(t) < cut), key=_mid):
         _merge(ro, t)
     return ro
 
 
 def _first_failure(case):
     ro = RunningOrder.from_string(case['ro_xml'])
-    for t in case['prefix']:
+    cut = _mid(case['delete'])
+    for t in sorted((t for t in case['prefix'] + case['after_collection'] if _mid(t) < cut), key=_mid):
         if _merge(ro, t) is not None:
             return 'prefix'
     return 'after'
@@ -178,7 +187,8 @@ def cases(draw):
         for t in prefix:
             _merge(ro, t)
     state = xmlcmp.state_of(ET.fromstring(str(ro)))
-    mid = 2_000_000
+    # the roDelete and everything sent after it sort behind every earlier message
+    mid = max(int(ET.fromstring(d).findtext('messageID').strip()) for d in docs) + 1000
     delete = B.tostring(B.envelope(B.ro_delete(col['ro_id'], draw(st.lists(gen.generic(depth=1), max_size=2))),
                                    mid, ncs_id=draw(st.none() | st.just('NCS'))),
                         pretty=draw(st.booleans()))
